@@ -1507,10 +1507,58 @@ def check_C19_binarizer(env):
         yield case
 
 
+def check_C19_shared_params(env):
+    """a copy taken before training answers like the original whatever other bandits are constructed in between from the
+    same policy-parameter objects (the library's default tree_parameters, or one dictionary the caller reuses): data whose
+    best split is a tie, so the trees depend on the random_state the bandit derives from its own seed"""
+    from mabwiser.mab import MAB, LearningPolicy, NeighborhoodPolicy
+    lp, nbh = ['EpsilonGreedy', {'epsilon': 0.0}], ['TreeBandit', {}]
+    if not in_focus(env, lp, nbh):
+        return
+    X = [[0, 0], [0, 0], [1, 1], [1, 1], [0, 0], [0, 0], [1, 1], [1, 1]]
+    D = [1, 1, 1, 1, 2, 2, 2, 2]
+    R = [0.0, 0.0, 1.0, 1.0, 1.0, 1.0, 0.0, 0.0]
+    Q = [[0, 1], [1, 0], [0, 0], [1, 1]]
+
+    def cont(m):
+        out = []
+        m.fit(D, R, X)
+        out += [m.predict(Q), m.predict_expectations(Q)]
+        m.add_arm(3)
+        m.partial_fit([3, 3, 3, 3], [0.0, 0.0, 2.0, 2.0], [[0, 0], [0, 0], [1, 1], [1, 1]])
+        out += [m.predict(Q), m.predict_expectations(Q)]
+        return out
+    for shared in (None, {'max_depth': 3}):
+        for seed_other in (2, 7, 12345, 99):
+            def mk(sd):
+                pol = NeighborhoodPolicy.TreeBandit() if shared is None else NeighborhoodPolicy.TreeBandit(tree_parameters=shared)
+                return MAB([1, 2], LearningPolicy.EpsilonGreedy(epsilon=0.0), pol, seed=sd)
+            case = {'arms': [1, 2], 'lp': lp, 'np': nbh, 'seed': 1, 'scenario': 'copy and pickle before fit; then another '
+                    'TreeBandit bandit with seed %d built from %s; then fit(tie data), query, add_arm(3), partial_fit, query on '
+                    'original and copies' % (seed_other, 'the default tree_parameters' if shared is None else
+                                             'the same tree_parameters dictionary'),
+                    'calls': [['fit', D, R, X], ['predict', Q], ['add_arm', 3],
+                              ['partial_fit', [3, 3, 3, 3], [0.0, 0.0, 2.0, 2.0], [[0, 0], [0, 0], [1, 1], [1, 1]]], ['predict', Q]]}
+            orig = mk(1)
+            clones = [copy.deepcopy(orig), pickle.loads(pickle.dumps(orig, protocol=4))]
+            mk(seed_other)
+            want = cont(orig)
+            for cl in clones:
+                got = cont(cl)
+                if not all(same_result(g, w, 0) for g, w in zip(got, want)):
+                    raise Failure('C19', 'a copy / pickle of an unfitted TreeBandit bandit diverges from the original once another '
+                                  'bandit (seed %d) has been built from %s' % (seed_other, 'the default tree_parameters'
+                                                                               if shared is None else 'the same dictionary'),
+                                  case, repr(got)[:300], repr(want)[:300], 'treebandit')
+            yield case
+
+
 def _check_C19_all(env):
     for c in check_C19(env):
         yield c
     for c in check_C19_binarizer(env):
+        yield c
+    for c in check_C19_shared_params(env):
         yield c
 
 
